@@ -20,6 +20,11 @@ def expected_row(b, w, i):
     return [f"b{b}_w{w}_{i}", rc, status, 1.5 + i + w / 10, 1000.0 + i, str(100 + b)]
 
 
+def expected_row2(b, i, name):
+    status = "finished" if i % 4 else "canceled"
+    return [name, (b + i) % 2, status, 2000.5 + i, 5000.0 + i, str(200 + b)]
+
+
 def prepare(scen, root, ctx):
     os.environ["JADE_REGISTRY"] = ctx["registry"]
     from jade.jobs.results_aggregator import ResultsAggregator
@@ -120,6 +125,87 @@ class S8(Sim):
         except Exception as e:
             self.viol("C08", "jade-parser-fails", f"ResultsAggregator cannot parse the consolidated file: {e!r}")
 
+    def drive(self):
+        while True:
+            if self.steps > 30000:
+                raise Inconclusive("step cap")
+            self.settle()
+            self.parse_check()
+            c = self.choose()
+            if c is None:
+                break
+            self.steps += 1
+            self.choices.append("a")
+            self.step_actor(c[2])
+
+    def resubmission_phase(self, expected, actor):
+        """A resubmission prunes some rows of the consolidated file (rewriting it), then the rerun jobs' results are appended and
+        collected by a second generation of writers and collectors.  Same exactly-once oracle over the second phase; kept rows
+        must still be there, unchanged."""
+        from jade.jobs.results_aggregator import ResultsAggregator
+
+        rs = self.scen["resub"]
+        names = sorted(expected)
+        rng = self.rng
+        k = {"none": 0, "all": len(names)}.get(rs["prune"], max(1, int(len(names) * 0.4)))
+        pruned = sorted(rng.sample(names, k)) if 0 < k < len(names) else (names if k else [])
+        h0 = len(self.hist)
+        self.spawn_top("prune", ["vpy", actor, "pruner", ",".join(pruned), self.outname], "login")
+        self.settle()
+        self.drive()
+        kept = {n: expected[n] for n in expected if n not in pruned}
+        lst = ResultsAggregator.list_results(self.outname)
+        if sorted(x.name for x in lst) != sorted(kept):
+            self.viol("C08", "prune-differs", f"after pruning {len(pruned)} of {len(expected)} rows the consolidated results hold {len(lst)} rows, {len(kept)} were to be kept")
+        # second generation
+        exp2 = {}
+        parts = [pruned[i::rs["writers2"]] for i in range(rs["writers2"])]
+        for w, part in enumerate(parts):
+            if not part:
+                continue
+            b = 50 + w % 2  # two writers may share a batch file
+            for i, n in enumerate(part):
+                exp2[n] = expected_row2(b, i, n)
+            self.spawn_top(f"rw{w}", ["vpy", actor, "rewriter", str(b), str(w), ",".join(part), self.outname], f"node{b}")
+            self.settle()
+        for c, rounds in enumerate(rs["collectors2"]):
+            self.spawn_top(f"rc{c}", ["vpy", actor, "collector", str(10 + c), str(rounds), self.outname], f"sub{c}")
+            self.settle()
+        self.drive()
+        for tag, rc in self.top_rc.items():
+            if rc != 0 and tag.startswith(("prune", "rw", "rc")):
+                tail = open(os.path.join(self.root, f"top_{tag}.log")).read()[-300:]
+                self.viol("C08", "actor-failed", f"{tag} exited {rc}: {tail}")
+        final = ResultsAggregator.load(self.outname).process_results()
+        rounds = [[[x.name, x.return_code, x.status, x.exec_time_s, x.completion_time, x.hpc_job_id] for x in final]]
+        rounds += [h["rows"] for h in self.hist[h0:] if h["k"] == "ret" and h.get("op") == "collect" and "rows" in h]
+        got = [r for rd in rounds for r in rd]
+        gn = [r[0] for r in got]
+        missing = sorted(set(exp2) - set(gn))
+        dup = sorted({n for n in gn if gn.count(n) > 1})
+        extra = sorted(set(gn) - set(exp2))
+        if missing:
+            self.viol("C08", "row-lost", f"after a resubmission: appended rows never reported by any collection: {missing[:6]} ({len(missing)})")
+        if dup:
+            self.viol("C08", "row-reported-twice", f"after a resubmission: rows reported as new by more than one collection: {dup[:6]}")
+        if extra:
+            self.viol("C08", "row-from-nowhere", f"after a resubmission: rows reported that nobody appended in this phase: {extra[:6]}")
+        for r in got:
+            e = exp2.get(r[0])
+            if e is not None and [r[0], int(r[1]), r[2], float(r[3]), float(r[4]), str(r[5])] != e:
+                self.viol("C08", "row-fields", f"after a resubmission: row {r} differs from what was appended {e}")
+        want = dict(kept)
+        want.update(exp2)
+        lst = ResultsAggregator.list_results(self.outname)
+        if sorted(x.name for x in lst) != sorted(want):
+            self.viol("C08", "consolidated-differs", f"after a resubmission the consolidated results hold {len(lst)} rows ({len(set(x.name for x in lst))} distinct), expected {len(want)} ({len(kept)} kept + {len(exp2)} new)")
+        for x in lst:
+            e = want.get(x.name)
+            if e is not None and [x.name, x.return_code, x.status, x.exec_time_s, x.completion_time, str(x.hpc_job_id)] != e:
+                self.viol("C08", "row-fields", f"after a resubmission: consolidated row {x} differs from what was appended / kept {e}")
+        self.parse_check()
+        self.resub_done = (len(pruned), len(kept), len(exp2))
+
     def run(self):
         os.chdir(self.root)
         sc = self.scen
@@ -138,17 +224,7 @@ class S8(Sim):
             self.settle()
         err = None
         try:
-            while True:
-                if self.steps > 30000:
-                    raise Inconclusive("step cap")
-                self.settle()
-                self.parse_check()
-                c = self.choose()
-                if c is None:
-                    break
-                self.steps += 1
-                self.choices.append("a")
-                self.step_actor(c[2])
+            self.drive()
             for tag, rc in self.top_rc.items():
                 if rc != 0:
                     tail = open(os.path.join(self.root, f"top_{tag}.log")).read()[-300:]
@@ -194,9 +270,12 @@ class S8(Sim):
             if left:
                 self.viol("C08", "node-file-left", f"node files left after the final collection: {left}")
             self.parse_check()
+            if sc.get("resub") and not loud_appends and not loud_collects:
+                self.resubmission_phase(expected, actor)
         except Inconclusive as e:
             err = f"inconclusive: {e}"
         res = self.result(err)
+        res["resub_pruned_kept_new"] = getattr(self, "resub_done", None)
         res.update(rows=len(expected), parse_checks=self.parse_checks, header_recreations=self.recreations, lock_contentions=self.overlaps,
                    collections=sum(1 for h in self.hist if h["k"] == "ret" and h.get("op") == "collect"), history_events=len(self.hist),
                    slow_holder_at=str(self.slow_at) if self.slow_at else None, slow_holder_stalled=bool(self.slow is not None and self.time_jumps > self.slow_jump0),
